@@ -741,6 +741,59 @@ pub fn run_case<F: Family>(it: &mut Interp<F>, name: &str, seed: u64, cfg: &GenC
                 continue;
             }
         }
+        // "ring churn" (C01/C02/C06/C10): rotate the allocator's free ring by alternating removals and
+        // insertions (its contents then wrap around the end of the buffer), optionally copy the world
+        // (a copy's free list is contiguous), then aim a batch at the free list of both
+        if g.rng.below(100) < 3 {
+            let live: Vec<Id> = F::rows(it.worlds[w].as_mut().unwrap()).iter().map(|(id, _)| *id).collect();
+            if live.len() >= 4 {
+                let k = 2 + g.rng.below(3) as usize;
+                for id in live.iter().take(k.min(live.len() - 1)) {
+                    it.exec(w, &Op::Remove(*id));
+                }
+                let turns = 1 + g.rng.below(5);
+                for _ in 0..turns {
+                    let shape = pick_shape(&mut g);
+                    let ids = shape.iter().map(|_| g.val()).collect();
+                    it.exec(w, &Op::Insert { shape, ids });
+                    let live: Vec<Id> = F::rows(it.worlds[w].as_mut().unwrap()).iter().map(|(id, _)| *id).collect();
+                    if let Some(id) = live.get(g.rng.below(live.len().max(1) as u64) as usize) {
+                        it.exec(w, &Op::Remove(*id));
+                    }
+                }
+                let o = (w + 1 + g.rng.below(2) as usize) % 3;
+                let copied = multi && g.rng.below(3) != 0;
+                let mut round_tripped = false;
+                if copied {
+                    let e = g.epoch();
+                    match g.rng.below(if serde_on { 4 } else { 2 }) {
+                        0 => { it.exec(o, &Op::Clone { src: w, e }); }
+                        1 => { if it.worlds[o].is_some() { it.exec(o, &Op::CloneFrom { src: w, e }); } else { it.exec(o, &Op::Clone { src: w, e }); } }
+                        _ => {
+                            let r = it.exec(o, &Op::Serde { src: w, rows: g.rng.below(2) == 0, e, front: "tokens".into(), mutation: vec![] });
+                            round_tripped = r.starts_with("ok eq=1");
+                        }
+                    }
+                }
+                let fl = free_len::<F>(it.worlds[w].as_ref().unwrap());
+                let shape = { let mut sh = pick_shape(&mut g); if sh.is_empty() { sh = work.iter().find(|x| !x.is_empty()).map(|x| x.to_vec()).unwrap_or(sh); } sh };
+                let n = if shape.is_empty() { 0 } else { (fl + g.rng.below(3) as usize).saturating_sub(g.rng.below(2) as usize).min(12) };
+                let rows: Vec<Vec<u64>> = (0..n).map(|_| shape.iter().map(|_| g.val()).collect()).collect();
+                let r1 = it.exec(w, &Op::Extend { shape: shape.clone(), rows });
+                if copied && it.worlds[o].is_some() {
+                    let rows: Vec<Vec<u64>> = (0..n).map(|_| shape.iter().map(|_| g.val()).collect()).collect();
+                    let r2 = it.exec(o, &Op::Extend { shape, rows });
+                    // C06: a round-tripped world behaves identically under further operations (same identifiers issued)
+                    let ids = |r: &str| r.split_whitespace().find_map(|t| t.strip_prefix("ids=").map(|x| x.to_string()));
+                    if round_tripped && ids(&r1).is_some() && ids(&r2).is_some() && ids(&r1) != ids(&r2) {
+                        ledger_error(format!("oracle=lockstep the same extend issued [{}] to the original and [{}] to its round-tripped copy", ids(&r1).unwrap(), ids(&r2).unwrap()));
+                    }
+                    it.exec(w, &Op::Eq(o));
+                }
+                it.bump("ring-churn");
+                continue;
+            }
+        }
         let query_on = cfg.profile.contains("query");
         let r = if query_on && g.rng.below(100) < 45 { 200 + g.rng.below(100) } else { g.rng.below(130) };
         if cfg.profile.contains("sched") && F::NAME == "Reg4" && g.rng.below(100) < 22 {
